@@ -134,3 +134,22 @@ Proof.
   assert (E : add_ 64 (Z.of_nat k) 1 = Z.of_nat (S k)) by (unfold add_; rewrite Z.mod_small by lia; lia).
   rewrite E. reflexivity.
 Qed.
+
+(* out only, one input (bitand_limb) *)
+Lemma loop_map1 (g : Z -> Z) a :
+  fold_left (fun (out : list Z) j => upd_ out j (g (nth j a 0))) (seq 0 (length a)) (repeat 0 (length a)) = map g a.
+Proof.
+  rewrite (loop_map2 (fun x _ => g x) a a eq_refl).
+  induction a as [|x a IH]; [reflexivity|]. cbn [combine map fst]. rewrite IH. reflexivity.
+Qed.
+
+(* in place: ret[i] = g(ret[i]) (neg_mod) *)
+Lemma loop_inplace (g : Z -> Z) : forall l pre,
+  fold_left (fun (out : list Z) j => upd_ out j (g (nth j out 0))) (seq (length pre) (length l)) (pre ++ l) = pre ++ map g l.
+Proof.
+  induction l as [|x l IH]; intros pre; [reflexivity|]. cbn [length seq fold_left map].
+  rewrite nth_middle, upd_mid.
+  replace (pre ++ g x :: l) with ((pre ++ [g x]) ++ l) by (rewrite <- app_assoc; reflexivity).
+  replace (S (length pre)) with (length (pre ++ [g x])) by (rewrite app_length; cbn; lia).
+  rewrite IH. rewrite <- app_assoc. reflexivity.
+Qed.
